@@ -236,3 +236,284 @@ Proof.
   split; [reflexivity|]. split; [reflexivity|]. split; [exact exb_size1|]. split; [exact exb_index0_ok|exact exb_fwd0].
 Qed.
 
+(* the main loop of decompose over ANY arithmetic with  eqb x zero = true -> x = zero: the computed au (U part) and al (multipliers) as left folds over the dense reading D0 of the matrix the loop started from, with the histories and the permutation of the forward phase *)
+Theorem band_dec_trace : forall (A : Arith), (forall x : A, eqb x zero = true -> x = zero) ->
+  forall (n mm m1 : nat) (au0 al0 : matrix A) (index0 : list nat) (d0 : A)
+         (au al : matrix A) (index : list nat) (d : A) (lf : nat),
+  cols au0 = mm -> cols al0 = m1 -> 1 <= mm -> m1 <= n ->
+  for_ 0 n (dec_step false n mm) (au0, al0, index0, d0, m1) = Ok (au, al, index, d, lf) ->
+  cols au = mm /\ cols al = m1 /\
+  (forall k, k < n -> k + 1 <= nth k index 0 /\ nth k index 0 <= fwin n m1 k) /\
+  ((forall k, k < n -> mat_at au mm k 0 <> zero) ->
+   (forall r s, r < n -> s < mm ->
+      mat_at au mm r s
+      = sfold (uterms mm au (r + s) (fhist n m1 al index n r)) (D0 mm m1 au0 (fperm index n r) (r + s))) /\
+   (forall r, r < n ->
+      let h := fhist n m1 al index n r in
+      forall t, t < length h ->
+        div (sfold (uterms mm au (snd (nth t h (zero, 0))) (firstn t h))
+               (D0 mm m1 au0 (fperm index n r) (snd (nth t h (zero, 0)))))
+            (mat_at au mm (snd (nth t h (zero, 0))) 0)
+        = Ok (fst (nth t h (zero, 0))))).
+Proof. intros A Hz n mm m1 au0 al0 index0 d0 au al index d lf. exact (band_dec_trace_lemma Hz n mm m1 au0 al0 index0 d0 au al index d lf). Qed.
+Check band_dec_trace : forall (A : Arith), (forall x : A, eqb x zero = true -> x = zero) ->
+  forall (n mm m1 : nat) (au0 al0 : matrix A) (index0 : list nat) (d0 : A)
+         (au al : matrix A) (index : list nat) (d : A) (lf : nat),
+  cols au0 = mm -> cols al0 = m1 -> 1 <= mm -> m1 <= n ->
+  for_ 0 n (dec_step false n mm) (au0, al0, index0, d0, m1) = Ok (au, al, index, d, lf) ->
+  cols au = mm /\ cols al = m1 /\
+  (forall k, k < n -> k + 1 <= nth k index 0 /\ nth k index 0 <= fwin n m1 k) /\
+  ((forall k, k < n -> mat_at au mm k 0 <> zero) ->
+   (forall r s, r < n -> s < mm ->
+      mat_at au mm r s
+      = sfold (uterms mm au (r + s) (fhist n m1 al index n r)) (D0 mm m1 au0 (fperm index n r) (r + s))) /\
+   (forall r, r < n ->
+      let h := fhist n m1 al index n r in
+      forall t, t < length h ->
+        div (sfold (uterms mm au (snd (nth t h (zero, 0))) (firstn t h))
+               (D0 mm m1 au0 (fperm index n r) (snd (nth t h (zero, 0)))))
+            (mat_at au mm (snd (nth t h (zero, 0))) 0)
+        = Ok (fst (nth t h (zero, 0))))).
+Print Assumptions band_dec_trace.
+(* the 2x2 system [[1,3],[2,1]] (m1 = m2 = 1) in the arithmetic that rounds every operation: the pivot search exchanges the rows *)
+Example band_dec_trace_nonvacuous :
+  (forall z : AFlx, eqb z zero = true -> z = zero) /\
+  cols exs_au0 = 3 /\
+  for_ 0 2 (dec_step (A := AFlx) false 2 3) (exs_au0, @mat_new AFlx 2 1 0%R, repeat 0 2, 1%R, 1)
+    = Ok (exs_au, exs_al, exs_index, (- (1))%R, 2) /\
+  (forall k, k < 2 -> mat_at (A := AFlx) exs_au 3 k 0 <> 0%R) /\
+  map (fperm exs_index 2) [0; 1] = [1; 0].
+Proof. split; [exact exs_hz|]. split; [reflexivity|]. split; [exact exs_loop|]. split; [exact exs_pivots|reflexivity]. Qed.
+
+(* band_solve went through exactly these phases; the dense reading of the shifted work matrix is the dense twin of the banded matrix *)
+Theorem band_solve_phases : forall (A : Arith) (B : banded A) (b x : list A),
+  (forall z : A, eqb z zero = true -> z = zero) ->
+  wfB B -> length b = bn B -> bm1 B <= bn B ->
+  band_solve B b = Ok x ->
+  exists (au0 au al : matrix A) (index : list nat) (d : A) (y : list A) (l1 l2 l3 : nat),
+    shift_rows (bm1 B) (bm1 B + bm2 B + 1) (Model.Banded.compact B) = Ok au0 /\
+    for_ 0 (bn B) (dec_step false (bn B) (bm1 B + bm2 B + 1))
+         (au0, mat_new (bn B) (bm1 B) zero, repeat 0 (bn B), one, bm1 B) = Ok (au, al, index, d, l1) /\
+    for_ 0 (bn B) (fwd_step (bn B) al index) (b, bm1 B) = Ok (y, l2) /\
+    for_rev 0 (bn B) (back_step (bm1 B + bm2 B + 1) au) (y, 1) = Ok (x, l3) /\
+    cols au0 = bm1 B + bm2 B + 1 /\ cols au = bm1 B + bm2 B + 1 /\ cols al = bm1 B /\ length y = bn B /\
+    (forall k, k < bn B -> k + 1 <= nth k index 0 /\ nth k index 0 <= fwin (bn B) (bm1 B) k) /\
+    (forall i c, D0 (bm1 B + bm2 B + 1) (bm1 B) au0 i c = dense_entry B i c).
+Proof. intros A B b x. exact (band_solve_phases_lemma B b x). Qed.
+Check band_solve_phases : forall (A : Arith) (B : banded A) (b x : list A),
+  (forall z : A, eqb z zero = true -> z = zero) ->
+  wfB B -> length b = bn B -> bm1 B <= bn B ->
+  band_solve B b = Ok x ->
+  exists (au0 au al : matrix A) (index : list nat) (d : A) (y : list A) (l1 l2 l3 : nat),
+    shift_rows (bm1 B) (bm1 B + bm2 B + 1) (Model.Banded.compact B) = Ok au0 /\
+    for_ 0 (bn B) (dec_step false (bn B) (bm1 B + bm2 B + 1))
+         (au0, mat_new (bn B) (bm1 B) zero, repeat 0 (bn B), one, bm1 B) = Ok (au, al, index, d, l1) /\
+    for_ 0 (bn B) (fwd_step (bn B) al index) (b, bm1 B) = Ok (y, l2) /\
+    for_rev 0 (bn B) (back_step (bm1 B + bm2 B + 1) au) (y, 1) = Ok (x, l3) /\
+    cols au0 = bm1 B + bm2 B + 1 /\ cols au = bm1 B + bm2 B + 1 /\ cols al = bm1 B /\ length y = bn B /\
+    (forall k, k < bn B -> k + 1 <= nth k index 0 /\ nth k index 0 <= fwin (bn B) (bm1 B) k) /\
+    (forall i c, D0 (bm1 B + bm2 B + 1) (bm1 B) au0 i c = dense_entry B i c).
+Print Assumptions band_solve_phases.
+Example band_solve_phases_nonvacuous :
+  (forall z : AFlx, eqb z zero = true -> z = zero) /\ wfB exs_B /\ length exs_b = bn exs_B /\ bm1 exs_B <= bn exs_B /\
+  (exists x, band_solve exs_B exs_b = Ok x).
+Proof. split; [exact exs_hz|]. split; [exact exs_wf|]. split; [reflexivity|]. split; [cbn; lia|exact exs_solve]. Qed.
+
+(* Higham Theorem 9.3 for the compact band LU with partial pivoting, row by row: L U = P B + dB with |dB| <= gam(c_r)|L||U|; row r of L is fhist r (c_r pairs), Uc the dense reading of the computed au, D0 of the matrix the loop started from *)
+Theorem band_lu_backward_error : forall (u : R), (0 <= u < 1)%R ->
+  forall (fadd fsub fmul fdiv : R -> R -> R),
+  (forall x y : R, exists d : R, (Rabs d <= u)%R /\ fsub x y = ((x - y) * (1 + d))%R) ->
+  (forall x y : R, exists d : R, (Rabs d <= u)%R /\ fmul x y = (x * y * (1 + d))%R) ->
+  (forall x y : R, y <> 0%R -> exists d : R, (Rabs d <= u)%R /\ fdiv x y = (x / y * (1 + d))%R) ->
+  forall (n mm m1 : nat) (au0 al0 : matrix (ARm fadd fsub fmul fdiv)) (index0 : list nat) (d0 : R)
+         (au al : matrix (ARm fadd fsub fmul fdiv)) (index : list nat) (d : R) (lf : nat),
+  cols au0 = mm -> cols al0 = m1 -> 1 <= mm -> m1 <= n ->
+  for_ 0 n (dec_step (A := ARm fadd fsub fmul fdiv) false n mm) (au0, al0, index0, d0, m1) = Ok (au, al, index, d, lf) ->
+  (forall k, k < n -> mat_at (A := ARm fadd fsub fmul fdiv) au mm k 0 <> 0%R) ->
+  forall r, r < n ->
+    let h : list (R * nat) := fhist (A := ARm fadd fsub fmul fdiv) n m1 al index n r in
+    (INR (length h) * u < 1)%R ->
+    (forall s, s < mm ->
+       exists (dd : R) (dL : nat -> R),
+         (Rabs dd <= gam u (length h))%R /\
+         (forall t, t < length h -> (Rabs (dL t) <= gam u (length h) * Rabs (fst (nth t h (0%R, 0%nat))))%R) /\
+         ((1 + dd) * mat_at (A := ARm fadd fsub fmul fdiv) au mm r s
+          + Rsum (length h) (fun t => (fst (nth t h (0, 0%nat)) + dL t)
+                                      * Uc fadd fsub fmul fdiv au mm (snd (nth t h (0, 0%nat))) (r + s))
+          = D0 (A := ARm fadd fsub fmul fdiv) mm m1 au0 (fperm index n r) (r + s))%R) /\
+    (forall t, t < length h ->
+       exists dL : nat -> R,
+         (forall t', t' <= t -> (Rabs (dL t') <= gam u (t + 1) * Rabs (fst (nth t' h (0%R, 0%nat))))%R) /\
+         (Rsum (S t) (fun t' => (fst (nth t' h (0, 0%nat)) + dL t')
+                                * Uc fadd fsub fmul fdiv au mm (snd (nth t' h (0, 0%nat))) (snd (nth t h (0%R, 0%nat))))
+          = D0 (A := ARm fadd fsub fmul fdiv) mm m1 au0 (fperm index n r) (snd (nth t h (0%R, 0%nat))))%R).
+Proof. intros u Hu fadd fsub fmul fdiv Hs Hm Hd n mm m1 au0 al0 index0 d0 au al index d lf. exact (band_lu_backward_error_lemma u Hu fadd fsub fmul fdiv Hs Hm Hd n mm m1 au0 al0 index0 d0 au al index d lf). Qed.
+Check band_lu_backward_error : forall (u : R), (0 <= u < 1)%R ->
+  forall (fadd fsub fmul fdiv : R -> R -> R),
+  (forall x y : R, exists d : R, (Rabs d <= u)%R /\ fsub x y = ((x - y) * (1 + d))%R) ->
+  (forall x y : R, exists d : R, (Rabs d <= u)%R /\ fmul x y = (x * y * (1 + d))%R) ->
+  (forall x y : R, y <> 0%R -> exists d : R, (Rabs d <= u)%R /\ fdiv x y = (x / y * (1 + d))%R) ->
+  forall (n mm m1 : nat) (au0 al0 : matrix (ARm fadd fsub fmul fdiv)) (index0 : list nat) (d0 : R)
+         (au al : matrix (ARm fadd fsub fmul fdiv)) (index : list nat) (d : R) (lf : nat),
+  cols au0 = mm -> cols al0 = m1 -> 1 <= mm -> m1 <= n ->
+  for_ 0 n (dec_step (A := ARm fadd fsub fmul fdiv) false n mm) (au0, al0, index0, d0, m1) = Ok (au, al, index, d, lf) ->
+  (forall k, k < n -> mat_at (A := ARm fadd fsub fmul fdiv) au mm k 0 <> 0%R) ->
+  forall r, r < n ->
+    let h : list (R * nat) := fhist (A := ARm fadd fsub fmul fdiv) n m1 al index n r in
+    (INR (length h) * u < 1)%R ->
+    (forall s, s < mm ->
+       exists (dd : R) (dL : nat -> R),
+         (Rabs dd <= gam u (length h))%R /\
+         (forall t, t < length h -> (Rabs (dL t) <= gam u (length h) * Rabs (fst (nth t h (0%R, 0%nat))))%R) /\
+         ((1 + dd) * mat_at (A := ARm fadd fsub fmul fdiv) au mm r s
+          + Rsum (length h) (fun t => (fst (nth t h (0, 0%nat)) + dL t)
+                                      * Uc fadd fsub fmul fdiv au mm (snd (nth t h (0, 0%nat))) (r + s))
+          = D0 (A := ARm fadd fsub fmul fdiv) mm m1 au0 (fperm index n r) (r + s))%R) /\
+    (forall t, t < length h ->
+       exists dL : nat -> R,
+         (forall t', t' <= t -> (Rabs (dL t') <= gam u (t + 1) * Rabs (fst (nth t' h (0%R, 0%nat))))%R) /\
+         (Rsum (S t) (fun t' => (fst (nth t' h (0, 0%nat)) + dL t')
+                                * Uc fadd fsub fmul fdiv au mm (snd (nth t' h (0, 0%nat))) (snd (nth t h (0%R, 0%nat))))
+          = D0 (A := ARm fadd fsub fmul fdiv) mm m1 au0 (fperm index n r) (snd (nth t h (0%R, 0%nat))))%R).
+Print Assumptions band_lu_backward_error.
+Example band_lu_backward_error_nonvacuous :
+  (0 <= ux < 1)%R /\
+  (forall x y : R, exists d : R, (Rabs d <= ux)%R /\ xsub x y = ((x - y) * (1 + d))%R) /\
+  (forall x y : R, exists d : R, (Rabs d <= ux)%R /\ xmul x y = (x * y * (1 + d))%R) /\
+  (forall x y : R, y <> 0%R -> exists d : R, (Rabs d <= ux)%R /\ xdiv x y = (x / y * (1 + d))%R) /\
+  cols exs_au0 = 3 /\
+  for_ 0 2 (dec_step (A := AFlx) false 2 3) (exs_au0, @mat_new AFlx 2 1 0%R, repeat 0 2, 1%R, 1)
+    = Ok (exs_au, exs_al, exs_index, (- (1))%R, 2) /\
+  (forall k, k < 2 -> mat_at (A := AFlx) exs_au 3 k 0 <> 0%R) /\
+  (forall r, r < 2 -> (INR (length (fhist (A := AFlx) 2 1 exs_al exs_index 2 r)) * ux < 1)%R).
+Proof.
+  split; [exact ux_range|]. split; [exact xsub_ok|]. split; [exact xmul_ok|]. split; [exact xdiv_ok|].
+  split; [reflexivity|]. split; [exact exs_loop|]. split; [exact exs_pivots|exact exs_hist_small].
+Qed.
+
+(* band_solve as a whole in the standard model: with the factors the solver computed, (U + dU) x = y, (L + dL) y = P b and L U = P B + dB (B = dense twin of the banded matrix) hold row by row, provided the computed pivots are nonzero *)
+Theorem band_solve_backward_error : forall (u : R), (0 <= u < 1)%R ->
+  forall (fadd fsub fmul fdiv : R -> R -> R),
+  (forall x y : R, exists d : R, (Rabs d <= u)%R /\ fsub x y = ((x - y) * (1 + d))%R) ->
+  (forall x y : R, exists d : R, (Rabs d <= u)%R /\ fmul x y = (x * y * (1 + d))%R) ->
+  (forall x y : R, y <> 0%R -> exists d : R, (Rabs d <= u)%R /\ fdiv x y = (x / y * (1 + d))%R) ->
+  forall (B : banded (ARm fadd fsub fmul fdiv)) (b x : list R),
+  wfB B -> length b = bn B -> bm1 B <= bn B -> band_solve B b = Ok x ->
+  exists (au al : matrix (ARm fadd fsub fmul fdiv)) (index : list nat) (y : list R),
+    (exists d : R, decompose_gen (A := ARm fadd fsub fmul fdiv) false B (Model.Banded.compact B)
+                     (mat_new (A := ARm fadd fsub fmul fdiv) (bn B) (bm1 B) 0%R) (repeat 0 (bn B))
+                   = Ok (au, al, index, d)) /\
+    length y = bn B /\ length x = bn B /\
+    (forall k, k < bn B -> k + 1 <= nth k index 0 <= Nat.min (k + 1 + bm1 B) (bn B)) /\
+    ((forall k, k < bn B -> mat_at (A := ARm fadd fsub fmul fdiv) au (bm1 B + bm2 B + 1) k 0 <> 0%R) ->
+     ((INR (bm1 B + bm2 B + 1) * u < 1)%R ->
+      exists dU : nat -> nat -> R,
+        (forall i k, i < bn B -> k < bwin (bm1 B + bm2 B + 1) (bn B) i ->
+           (Rabs (dU i k) <= gam u (bwin (bm1 B + bm2 B + 1) (bn B) i)
+                             * Rabs (mat_at (A := ARm fadd fsub fmul fdiv) au (bm1 B + bm2 B + 1) i k))%R) /\
+        forall i, i < bn B ->
+          Rsum (bwin (bm1 B + bm2 B + 1) (bn B) i)
+            (fun k => ((mat_at (A := ARm fadd fsub fmul fdiv) au (bm1 B + bm2 B + 1) i k + dU i k) * nth (i + k) x 0)%R)
+          = nth i y 0%R) /\
+     forall r, r < bn B ->
+       let h : list (R * nat) := fhist (A := ARm fadd fsub fmul fdiv) (bn B) (bm1 B) al index (bn B) r in
+       length h <= r /\
+       (forall t, t < length h -> snd (nth t h (0%R, 0)) < r) /\
+       ((INR (length h) * u < 1)%R ->
+        (exists (dd : R) (dL : nat -> R),
+           (Rabs dd <= gam u (length h))%R /\
+           (forall t, t < length h -> (Rabs (dL t) <= gam u (length h) * Rabs (fst (nth t h (0%R, 0%nat))))%R) /\
+           ((1 + dd) * nth r y 0
+            + Rsum (length h) (fun t => (fst (nth t h (0, 0%nat)) + dL t) * nth (snd (nth t h (0, 0%nat))) y 0)
+            = nth (fperm index (bn B) r) b 0)%R) /\
+        (forall s, s < bm1 B + bm2 B + 1 ->
+           exists (dd : R) (dL : nat -> R),
+             (Rabs dd <= gam u (length h))%R /\
+             (forall t, t < length h -> (Rabs (dL t) <= gam u (length h) * Rabs (fst (nth t h (0%R, 0%nat))))%R) /\
+             ((1 + dd) * mat_at (A := ARm fadd fsub fmul fdiv) au (bm1 B + bm2 B + 1) r s
+              + Rsum (length h) (fun t => (fst (nth t h (0, 0%nat)) + dL t)
+                                          * Uc fadd fsub fmul fdiv au (bm1 B + bm2 B + 1) (snd (nth t h (0, 0%nat))) (r + s))
+              = dense_entry B (fperm index (bn B) r) (r + s))%R) /\
+        (forall t, t < length h ->
+           exists dL : nat -> R,
+             (forall t', t' <= t -> (Rabs (dL t') <= gam u (t + 1) * Rabs (fst (nth t' h (0%R, 0%nat))))%R) /\
+             (Rsum (S t) (fun t' => (fst (nth t' h (0, 0%nat)) + dL t')
+                                    * Uc fadd fsub fmul fdiv au (bm1 B + bm2 B + 1) (snd (nth t' h (0, 0%nat)))
+                                         (snd (nth t h (0%R, 0%nat))))
+              = dense_entry B (fperm index (bn B) r) (snd (nth t h (0%R, 0%nat))))%R))).
+Proof. intros u Hu fadd fsub fmul fdiv Hs Hm Hd B b x. exact (band_solve_backward_error_lemma u Hu fadd fsub fmul fdiv Hs Hm Hd B b x). Qed.
+Check band_solve_backward_error : forall (u : R), (0 <= u < 1)%R ->
+  forall (fadd fsub fmul fdiv : R -> R -> R),
+  (forall x y : R, exists d : R, (Rabs d <= u)%R /\ fsub x y = ((x - y) * (1 + d))%R) ->
+  (forall x y : R, exists d : R, (Rabs d <= u)%R /\ fmul x y = (x * y * (1 + d))%R) ->
+  (forall x y : R, y <> 0%R -> exists d : R, (Rabs d <= u)%R /\ fdiv x y = (x / y * (1 + d))%R) ->
+  forall (B : banded (ARm fadd fsub fmul fdiv)) (b x : list R),
+  wfB B -> length b = bn B -> bm1 B <= bn B -> band_solve B b = Ok x ->
+  exists (au al : matrix (ARm fadd fsub fmul fdiv)) (index : list nat) (y : list R),
+    (exists d : R, decompose_gen (A := ARm fadd fsub fmul fdiv) false B (Model.Banded.compact B)
+                     (mat_new (A := ARm fadd fsub fmul fdiv) (bn B) (bm1 B) 0%R) (repeat 0 (bn B))
+                   = Ok (au, al, index, d)) /\
+    length y = bn B /\ length x = bn B /\
+    (forall k, k < bn B -> k + 1 <= nth k index 0 <= Nat.min (k + 1 + bm1 B) (bn B)) /\
+    ((forall k, k < bn B -> mat_at (A := ARm fadd fsub fmul fdiv) au (bm1 B + bm2 B + 1) k 0 <> 0%R) ->
+     ((INR (bm1 B + bm2 B + 1) * u < 1)%R ->
+      exists dU : nat -> nat -> R,
+        (forall i k, i < bn B -> k < bwin (bm1 B + bm2 B + 1) (bn B) i ->
+           (Rabs (dU i k) <= gam u (bwin (bm1 B + bm2 B + 1) (bn B) i)
+                             * Rabs (mat_at (A := ARm fadd fsub fmul fdiv) au (bm1 B + bm2 B + 1) i k))%R) /\
+        forall i, i < bn B ->
+          Rsum (bwin (bm1 B + bm2 B + 1) (bn B) i)
+            (fun k => ((mat_at (A := ARm fadd fsub fmul fdiv) au (bm1 B + bm2 B + 1) i k + dU i k) * nth (i + k) x 0)%R)
+          = nth i y 0%R) /\
+     forall r, r < bn B ->
+       let h : list (R * nat) := fhist (A := ARm fadd fsub fmul fdiv) (bn B) (bm1 B) al index (bn B) r in
+       length h <= r /\
+       (forall t, t < length h -> snd (nth t h (0%R, 0)) < r) /\
+       ((INR (length h) * u < 1)%R ->
+        (exists (dd : R) (dL : nat -> R),
+           (Rabs dd <= gam u (length h))%R /\
+           (forall t, t < length h -> (Rabs (dL t) <= gam u (length h) * Rabs (fst (nth t h (0%R, 0%nat))))%R) /\
+           ((1 + dd) * nth r y 0
+            + Rsum (length h) (fun t => (fst (nth t h (0, 0%nat)) + dL t) * nth (snd (nth t h (0, 0%nat))) y 0)
+            = nth (fperm index (bn B) r) b 0)%R) /\
+        (forall s, s < bm1 B + bm2 B + 1 ->
+           exists (dd : R) (dL : nat -> R),
+             (Rabs dd <= gam u (length h))%R /\
+             (forall t, t < length h -> (Rabs (dL t) <= gam u (length h) * Rabs (fst (nth t h (0%R, 0%nat))))%R) /\
+             ((1 + dd) * mat_at (A := ARm fadd fsub fmul fdiv) au (bm1 B + bm2 B + 1) r s
+              + Rsum (length h) (fun t => (fst (nth t h (0, 0%nat)) + dL t)
+                                          * Uc fadd fsub fmul fdiv au (bm1 B + bm2 B + 1) (snd (nth t h (0, 0%nat))) (r + s))
+              = dense_entry B (fperm index (bn B) r) (r + s))%R) /\
+        (forall t, t < length h ->
+           exists dL : nat -> R,
+             (forall t', t' <= t -> (Rabs (dL t') <= gam u (t + 1) * Rabs (fst (nth t' h (0%R, 0%nat))))%R) /\
+             (Rsum (S t) (fun t' => (fst (nth t' h (0, 0%nat)) + dL t')
+                                    * Uc fadd fsub fmul fdiv au (bm1 B + bm2 B + 1) (snd (nth t' h (0, 0%nat)))
+                                         (snd (nth t h (0%R, 0%nat))))
+              = dense_entry B (fperm index (bn B) r) (snd (nth t h (0%R, 0%nat))))%R))).
+Print Assumptions band_solve_backward_error.
+(* the same 2x2 system through band_solve in the rounding arithmetic: it answers, its factors are exs_au / exs_al / exs_index
+   (one exchange), the computed pivots are nonzero, the sizes are admissible *)
+Example band_solve_backward_error_nonvacuous :
+  (0 <= ux < 1)%R /\
+  (forall x y : R, exists d : R, (Rabs d <= ux)%R /\ xsub x y = ((x - y) * (1 + d))%R) /\
+  (forall x y : R, exists d : R, (Rabs d <= ux)%R /\ xmul x y = (x * y * (1 + d))%R) /\
+  (forall x y : R, y <> 0%R -> exists d : R, (Rabs d <= ux)%R /\ xdiv x y = (x / y * (1 + d))%R) /\
+  wfB exs_B /\ length exs_b = bn exs_B /\ bm1 exs_B <= bn exs_B /\
+  (exists x, band_solve exs_B exs_b = Ok x) /\
+  decompose_gen false exs_B (Model.Banded.compact exs_B) (@mat_new AFlx 2 1 0%R) (repeat 0 2) = Ok (exs_au, exs_al, exs_index, (- (1))%R) /\
+  (forall k, k < 2 -> mat_at (A := AFlx) exs_au 3 k 0 <> 0%R) /\
+  (INR 3 * ux < 1)%R /\
+  (forall r, r < 2 -> (INR (length (fhist (A := AFlx) 2 1 exs_al exs_index 2 r)) * ux < 1)%R).
+Proof.
+  split; [exact ux_range|]. split; [exact xsub_ok|]. split; [exact xmul_ok|]. split; [exact xdiv_ok|].
+  split; [exact exs_wf|]. split; [reflexivity|]. split; [cbn; lia|]. split; [exact exs_solve|].
+  split; [exact exs_decompose|]. split; [exact exs_pivots|]. split; [exact exs_size3|exact exs_hist_small].
+Qed.
+(* with partial pivoting the number c_r of updates of a row is not bounded by the bandwidth: for tridiag(2,1,1) of size 6
+   (m1 = 1, exact rationals) the first row travels to the last position and is updated at every stage *)
+Example band_history_grows_example :
+  hist_lengths (decompose_gen false exq_B (Model.Banded.compact exq_B) (mat_new 6 1 zero) (repeat 0 6)) = [0; 0; 0; 0; 0; 5] /\
+  hist_perm (decompose_gen false exq_B (Model.Banded.compact exq_B) (mat_new 6 1 zero) (repeat 0 6)) = [1; 2; 3; 4; 5; 0].
+Proof. exact exq_history_grows. Qed.
+
